@@ -23,28 +23,43 @@ from pyrtl import corecircuits as pcc
 import gen_designs
 import nlx
 
-RULE = ('(a) one design per operand width pair (wa, wb) <= 4 (quick) / 6 (thorough) carrying every word-level '
-        'op at full result width, lowered by the real synthesize (merge_io_vectors alternating), stepped through '
-        'EVERY (x, y, s): a case = (wa, wb, x, y, s), distinct by that key; (b) seeded random API-built designs '
-        '(max width 8, a share up to 33 bits without *) x initial state x input sequence x merge_io_vectors x '
-        'update_working_block; a case = (design, config), non-trivial when at least half of the Output bits '
-        'toggled during the run or the design has state')
+RULE = ("(a) one design per operand width pair (wa, wb) <= 4 (quick) / 6 (thorough) carrying every word-level "
+        "op (+ - * < > = x c s & | ^ n ~) at full result width, lowered by the real synthesize (merge_io_vectors "
+        "alternating) and stepped through EVERY (x, y, s): a case = (wa, wb, x, y, s); (a') hand-built nets whose "
+        "destination is narrower than the natural result, every legal destination width, arguments <= 3 (quick) / 4 "
+        "bits, exhaustive values; (b) seeded random API-built designs (max width 8; every fifth up to 33 bits "
+        "without *; registers with non-zero reset values, memories with initial contents, ROMs) x initial state x "
+        "input sequence x merge_io_vectors x update_working_block: a case = (design, config), non-trivial when at "
+        "least half of the Outputs toggled or the design has state; every cycle compares Outputs of original / "
+        "synthesized / Sem / Coq model and, wire by wire, value(w) = sum_i bit(w_i) 2^i on the real block")
 IMPORTS_GATES = 'From PyRTL Require Import Pass.BasicGates.'
 IMPORTS_SPEC = 'From PyRTL Require Import Netlist.Sem Netlist.WFDefs Netlist.SpecHarness.'
 IMPORTS_SYNTH = 'From PyRTL Require Import Netlist.Sem Netlist.WFDefs Pass.Synth Pass.SynthHarness.'
 COQ_TARGETS = ['theories/Pass/BasicGates.vo', 'theories/Netlist/SpecHarness.vo',
                'theories/Pass/SynthHarness.vo']
-TRUSTED = ['Pass/BasicGates.v control skeletons (ripple / lt accumulation / Wallace passes / tree_reduce) and '
-           'Pass/Synth.v (hand model of synthesize + _decompose, gate-netlist semantics gstep/grun), tied '
-           'behaviourally to the real code on every run; expression bodies are regenerated (Gen/SynthGates.v)',
-           'integer arithmetic in py/checks/C03.py expected() as the specification of each word-level op']
-ASSUMPTIONS = ['arguments of two-operand nets have equal bitwidth and mux branches equal bitwidth '
-               '(sanity_check_net enforces it; boolean premise synth_okb of the theorems)',
+TRUSTED = ['Pass/BasicGates.v control skeletons (ripple / lt accumulation / Wallace passes / tree_reduce): '
+           'guarded by the textual-identity gate of py/genfrag_C03.py and tied behaviourally on every run; all '
+           'gate EXPRESSIONS are regenerated from the source (Gen/SynthGates.v, Gen/SynthFrags.v)',
+           'Pass/Synth.v (hand model of synthesize + _decompose as per-net gate-expression groups with the '
+           'small-step semantics gstep/grun of 1-bit wires, 1-bit registers and word-level memories), tied '
+           'behaviourally: every wire of every cycle of every design of part (b)',
+           'Pass/SynthHarness.v shapeb (the C03 shape predicate) and its Python mirror py_shape_ok',
+           'integer arithmetic in py/checks/C03.py expected() as the specification of each word-level op in '
+           'part (a); Netlist/Sem.v elsewhere']
+ASSUMPTIONS = ['arguments of two-operand nets have equal bitwidth >= 1, mux branches equal bitwidth, select '
+               'indices in range (sanity_check_net enforces it; boolean premise synth_okb of the theorems, '
+               'evaluated to true on every dumped design)',
+               'default_value = 0 (the property speaks of reset/initial values and memory contents only)',
                'ROM contents are tabulated at dump time',
+               'the synthesized block is modelled as gate-expression trees (no sharing of common carries) with '
+               'its own bit-level semantics, not as a Syntax.netlist with fresh wire ids under Sem.run',
                'designs of part (b) are limited to widths <= 33 (Wallace trees of wider multipliers make '
-               'Simulation of the gate netlist too slow for the budget); theorems are for all widths']
+               'Simulation of the gate netlist too slow for the budget); the theorems are for all widths',
+               'Coq shapeb is evaluated on real blocks of <= %d nets (it is quadratic); larger blocks are checked '
+               'by its Python mirror, and the two are compared wherever both run']
 
 SHAPE_MAX_NETS = 1500   # Coq shapeb is quadratic; larger blocks are checked by its Python mirror only
+ASSUMPTIONS[-1] = ASSUMPTIONS[-1] % SHAPE_MAX_NETS
 OPS = ['add', 'sub', 'mul', 'lt', 'gt', 'eq']
 OPCODE = {o: i for i, o in enumerate(OPS)}
 
